@@ -1,6 +1,7 @@
 (* C15 / C17 checkers (Multi.call_check, Multi.ret_check, extracted) on observation lines written by
    the runner.  I/O glue only.
    call <key> missing=0 child=<state>@<t>|none act=<state>@<t>,...|- open=0 parent=<t>|none inputs=1 outs=1 unsat=0 quiet=1
+   forced <key> act=<state>@<t>,... inputs=1
    ret <key> keep=1 ended=1 procrow=<state>|none tasks=4 open=0 created=4 refused=1 *)
 open M_multi
 let rec nat_of_int n = if n <= 0 then O else S (nat_of_int (n - 1))
@@ -31,6 +32,10 @@ let () =
                          co_act_open = b "open";
                          co_parent_end = (match kv fields "parent" with "none" -> None | s -> Some (z_of_int (int_of_string s)));
                          co_inputs_ok = b "inputs"; co_outs_ok = b "outs"; co_unsatisfied = b "unsat"; co_quiescent = b "quiet" }
+          | "forced" ->
+            forced_check { co_missing = false; co_child_end = None;
+                           co_act_ends = (match kv fields "act" with "-" -> [] | s -> List.map st_at (String.split_on_char ',' s));
+                           co_act_open = false; co_parent_end = None; co_inputs_ok = b "inputs"; co_outs_ok = true; co_unsatisfied = false; co_quiescent = true }
           | "ret" ->
             ret_check { ro_keep = b "keep"; ro_ended = b "ended";
                         ro_procrow = (match kv fields "procrow" with "none" -> None | s -> Some (state_of_name s));
